@@ -19,6 +19,18 @@ CHECKS = {
          "codec (harness/codec.py), CPython. Validity is checked in finite standard models only (sound for refutation).",
          "TLA+ spec of the kernel as a transition system + TLC model checking + trace validation of the real kernel against it",
          "6/C01"),
+ "C03": ("model_checking",
+         "TLC model-checks (a) spec/C03_TermAlgebra.tla: one state per operation vector over all well-typed terms of bounded depth; "
+         "invariant: the semantic laws of C03_Laws (denotation preserved in every finite standard model, type preserved, beta-normal, "
+         "variable really abstracted) hold for the reference algebra; (b) spec/C03_Heap.tla: identity tokens under copy-construction, "
+         "garbage collection and address reuse as coded, invariants EqCorrect/TokenOwn. Every vector is performed on real terms "
+         "(fresh and shared sub-objects) and TLC evaluates the same laws on the code's results; ==, hash and fast_compare are judged "
+         "against structural identity of the nameless encoding on rebuilt/renamed/copied/mutated pairs and triples; recorded heap "
+         "histories with directed address reuse are validated action by action.",
+         "Trusted: TLC/SANY, HolSem finite-model semantics (|tyvar|<=2), structural codec, CPython. Address reuse is only *realised* by the "
+         "allocator; a history where it is not realised is not counted.",
+         "TLA+ semantic laws + heap/token state machine, TLC model checking, vector replay and trace validation against kernel/term.py",
+         "6/C03"),
 }
 
 NOT_YET = {}
